@@ -6,8 +6,15 @@
 #include "prelude.h"
 #include <stdlib.h>
 JanetFuncDef g_def; JanetFunction g_func; JanetFuncEnv g_env; uint32_t g_bc[4];
-int32_t readint_stub(UnmarshalState *st, const uint8_t **atdata) { return nd_i32(); }
-int32_t readnat_stub(UnmarshalState *st, const uint8_t **atdata) { int32_t v = nd_i32(); __CPROVER_assume(v >= 0); return v; }
+/* ghosts: the integers handed out, in call order (header: flags | frame stackstart stacktop maxstack; per frame: frameflags | prevframe pcdiff) */
+int g_ni, g_nn; int32_t g_int[2], g_nat[6];
+int32_t readint_stub(UnmarshalState *st, const uint8_t **atdata) { int32_t v = nd_i32(); if (g_ni < 2) g_int[g_ni] = v; g_ni++; return v; }
+#ifdef MF_SMALL
+#define MF_NATMAX 12      /* small stack geometry: keeps the frame reads of the resume-pc postcondition cheap */
+#else
+#define MF_NATMAX 0x7fffffff
+#endif
+int32_t readnat_stub(UnmarshalState *st, const uint8_t **atdata) { int32_t v = nd_i32(); __CPROVER_assume(v >= 0 && v <= MF_NATMAX); if (g_nn < 6) g_nat[g_nn] = v; g_nn++; return v; }
 const uint8_t *unmarshal_one_stub(UnmarshalState *st, const uint8_t *data, Janet *out, int flags) {
   Janet v; /* uninitialised local = arbitrary value (tagged-struct configuration) */
   /* a value tagged as function always refers to a real, verified function object */
@@ -23,12 +30,34 @@ void h_unmarshal_fiber(void) {
   st.start = bytes; st.end = bytes + 4;
   g_func.def = &g_def; g_def.bytecode = g_bc;
   g_def.slotcount = nd_i32(); __CPROVER_assume(g_def.slotcount >= 0 && g_def.slotcount <= 0x1000000);
-  g_def.bytecode_length = nd_i32(); __CPROVER_assume(g_def.bytecode_length >= 1);
+#ifdef MF_SMALL
+  __CPROVER_assume(g_def.slotcount <= 3);
+#endif
+  g_def.bytecode_length = nd_i32(); __CPROVER_assume(g_def.bytecode_length >= 1 && g_def.bytecode_length <= 4);      /* harness bound: 4 instruction words, any contents */
+  g_bc[0] = nd_u32(); g_bc[1] = nd_u32(); g_bc[2] = nd_u32(); g_bc[3] = nd_u32();   /* no loop: the unit unwinds loops only twice */
+  g_ni = g_nn = 0;
   unmarshal_one_fiber(&st, bytes, &out, nd_int() & 0xFF);
   /* accepted image: layout invariants every later user (resume, gc, print) relies on */
   __CPROVER_assert(out != 0, "C10 fiber image: result set");
   __CPROVER_assert(out->frame >= 0 && (int64_t)out->frame + JANET_FRAME_SIZE <= out->stackstart, "C10 fiber image: frame + FRAME_SIZE <= stackstart (no overflow)");
   __CPROVER_assert(out->stackstart <= out->stacktop && out->stacktop <= out->maxstack, "C10 fiber image: stackstart <= stacktop <= maxstack");
   __CPROVER_assert(out->stacktop <= out->capacity && out->capacity > 0, "C10 fiber image: stacktop within the allocated capacity");
+  /* resume-safe pc: when the fiber can still run, the interpreter stores the resume value in register A of the instruction
+   * at the top frame's pc and steps to the next instruction (run_vm entry) - both must stay inside the frame / the bytecode.
+   * Bytecode verification does not give this for an arbitrary pc (shape-0 instructions accept any operand bits).
+   * Stated over the integers the image supplied (ghosts), so that no symbolic-offset read of the stack block is needed. */
+  if (g_nat[0] > 0) {                       /* frame > 0: there is a top frame; it is the first one read */
+    int32_t fflags = g_int[0], pcd = g_nat[5];
+    JanetFiberStatus fs = (JanetFiberStatus)((fflags & JANET_FIBER_STATUS_MASK) >> JANET_FIBER_STATUS_OFFSET);
+    int finished = fs == JANET_STATUS_DEAD || fs == JANET_STATUS_ERROR || (fs >= JANET_STATUS_USER0 && fs <= JANET_STATUS_USER4);
+    __CPROVER_assert(g_ni >= 2 && g_nn >= 6 && pcd < g_def.bytecode_length, "C10 fiber image: the top frame's pc lies inside its function's bytecode");
+    uint32_t w = g_bc[pcd];
+    int dropped = (fflags & JANET_FIBER_DID_LONGJUMP) && (w & 0xFF) == JOP_TAILCALL;
+    if (!finished && !dropped) {
+      __CPROVER_assert((fflags & JANET_FIBER_RESUME_NO_USEVAL) || (int32_t)((w >> 8) & 0xFF) < g_def.slotcount, "C10 fiber image: a fiber that can be resumed stores the resume value inside its frame (register A of the instruction at pc is below slotcount)");
+      __CPROVER_assert((fflags & JANET_FIBER_RESUME_NO_SKIP) || pcd + 1 < g_def.bytecode_length, "C10 fiber image: a fiber that can be resumed continues inside its bytecode (pc is not the last instruction)");
+      REACH("fiber image: resumable fiber with a function frame");
+    }
+  }
   REACH("unmarshal_one_fiber accepts an image");
 }
